@@ -231,9 +231,15 @@ impl FragmentedMuxer {
         let first_dts = self.samples[0].dts;
         let last_dts = self.samples.last().unwrap().dts;
         let duration_ticks = last_dts.saturating_sub(first_dts);
-        let duration_ms = duration_ticks * 1000 / self.config.timescale as u64;
+        // 128-bit arithmetic: the product cannot overflow; a zero timescale (a public,
+        // unvalidated configuration field) yields "not ready" instead of dividing by zero.
+        let Some(duration_ms) =
+            (u128::from(duration_ticks) * 1000).checked_div(u128::from(self.config.timescale))
+        else {
+            return false;
+        };
 
-        duration_ms >= self.config.fragment_duration_ms as u64
+        duration_ms >= u128::from(self.config.fragment_duration_ms)
     }
 
     /// Get current fragment duration in milliseconds.
@@ -244,7 +250,11 @@ impl FragmentedMuxer {
         let first_dts = self.samples[0].dts;
         let last_dts = self.samples.last().unwrap().dts;
         let duration_ticks = last_dts.saturating_sub(first_dts);
-        duration_ticks * 1000 / self.config.timescale as u64
+        // See ready_to_flush: no overflow, no division by zero; saturate at u64::MAX.
+        (u128::from(duration_ticks) * 1000)
+            .checked_div(u128::from(self.config.timescale))
+            .map(|ms| u64::try_from(ms).unwrap_or(u64::MAX))
+            .unwrap_or(0)
     }
 }
 
